@@ -637,12 +637,6 @@ func c07kill(ctx context.Context, run *vkit.Run, base string, sc c07scenario, e 
 	_ = os.RemoveAll(dir)
 }
 
-func tailStr(s string, n int) string {
-	if len(s) > n {
-		return s[len(s)-n:]
-	}
-	return s
-}
 
 // c07child: C07_CHILD=scenario,w,tail,k,h,dir — regenerate the same square (same seed), run the
 // scenario and die at marker k.
